@@ -411,6 +411,9 @@ func (e *c39cenv) run(cs c39ccase, free bool) {
 		}
 		l.ls.releaseSavingBlockLock()
 		r.Class(fmt.Sprintf("concurrent:overlap:%d-callers-parked-past-their-unlocked-checks", n))
+		if n == 2 {
+			r.Class("concurrent:both-parked:" + rel)
+		}
 	default:
 		panic("schedule " + cs.Schedule)
 	}
@@ -568,7 +571,7 @@ func TestVerif_C39_concurrent(t *testing.T) {
 		r.Need(len(f.alpha) == len(names), "alphabet and name list differ")
 		for ai, an := range names {
 			fa := f.blk(an)
-			// work unit = (chain, A); numbered so that 3 or 6 shards need one chain's reference ledgers each
+			// work unit = (chain, A); numbered so that 3, 6 or 15 shards need one chain's reference ledgers each
 			if !r.Mine(ci + len(chs)*ai) {
 				continue
 			}
